@@ -524,7 +524,7 @@ fn body_of(prog: &WProgram, f: &WFunc) -> String {
         }
     }
     for c in &f.calls {
-        if let Some(callee) = prog.funcs().into_iter().find(|g| &g.name == c && g.shape == 'h') {
+        if let Some(callee) = prog.funcs().into_iter().find(|g| &g.name == c && g.shape == 'h' && !g.flags.contains('M') && !g.flags.contains('T')) {
             if callee.flags.contains('N') && !f.flags.contains('N') {
                 s.push_str(&format!("    ns1::{}();\n", c));
             } else {
@@ -1122,6 +1122,8 @@ pub fn gen_wide(rng: &mut Rng, o: &WideOpts) -> WProgram {
                         if let WItem::Func(f) = &nodes[e].item {
                             let mut g = f.clone();
                             g.shape = if f.shape == 'h' { 'p' } else { 'h' };
+                            // a second method of that name would be a second `struct S_<name>`: a redefinition, not an overload
+                            g.flags.retain(|c| c != 'M');
                             g.threads = None;
                             g.uses.clear();
                             g.calls.clear();
@@ -1451,6 +1453,72 @@ pub fn gen_wide(rng: &mut Rng, o: &WideOpts) -> WProgram {
         }
     }
 
+    // ---- same-named functions, routinely (not an "odd" edit): the exporters' name map renames every member of a group of
+    // same-named symbols of one namespace - wherever in the file they stand, used or not -, so an entry point `f` is reported
+    // as `f_k`; the entry lookup counts the functions of that name in the registry of the moment (before the block: the
+    // name is ambiguous, after it: accepted).  Skipped (no random draws) when overloads are switched off.
+    if !o.no_overloads && rng.chance(2, 5) {
+        let rounds = 1 + rng.below(2);
+        for _ in 0..rounds {
+            let targets: Vec<usize> = entries.iter().map(|(_, n)| *n).chain(helper_nodes.iter().copied()).collect();
+            if targets.is_empty() {
+                break;
+            }
+            // entry points three times as often as helpers
+            let t = if !entries.is_empty() && rng.chance(3, 4) { entries[rng.below(entries.len() as u64) as usize].1 } else { *rng.pick(&targets) };
+            let (tname, tshape) = match &nodes[t].item {
+                WItem::Func(f) => (f.name.clone(), f.shape),
+                _ => continue,
+            };
+            let other_shape = if tshape == 'h' { 'p' } else { 'h' };
+            let is_entry = entries.iter().any(|(_, n)| *n == t);
+            let plain = |name: String, shape: char, flags: &str| WFunc {
+                name,
+                shape,
+                flags: flags.to_string(),
+                threads: None,
+                uses: Vec::new(),
+                calls: Vec::new(),
+                statics: Vec::new(),
+            };
+            let mut added: Vec<WFunc> = Vec::new();
+            match rng.below(7) {
+                // an overload in the same namespace as a root function
+                0 | 1 => added.push(plain(tname.clone(), other_shape, "")),
+                // the same name inside namespace ns1 (another scope of the name map, the same name for the entry lookup);
+                // only for entry points: a helper of that name inside ns1 would hide the root helper from callers in ns1
+                2 => added.push(plain(tname.clone(), other_shape, if is_entry { "N" } else { "" })),
+                // a method of that name (registered in the namespace of its struct)
+                3 => added.push(plain(tname.clone(), 'h', "M")),
+                // the first generated candidate `f_0` is taken by a function of its own, next to an overload of `f`
+                4 => {
+                    added.push(plain(format!("{}_0", tname), 'h', ""));
+                    added.push(plain(tname.clone(), other_shape, ""));
+                }
+                // an overload that is only declared
+                5 => added.push(plain(tname.clone(), other_shape, "d")),
+                // two more functions of that name
+                _ => {
+                    added.push(plain(tname.clone(), other_shape, ""));
+                    added.push(plain(tname.clone(), if other_shape == 'p' { 'v' } else { 'p' }, ""));
+                }
+            }
+            for g in added {
+                // after every pipeline (accepted, renamed) two times out of three, else anywhere / before some blocks
+                let late = rng.chance(2, 3);
+                let n = nodes.len();
+                nodes.push(Node { item: WItem::Func(g), deps: if late { pipe_nodes.clone() } else { Vec::new() } });
+                if !late {
+                    for p in &pipe_nodes {
+                        if rng.chance(1, 3) {
+                            nodes[*p].deps.push(n);
+                        }
+                    }
+                }
+            }
+        }
+    }
+
     // ---- order: a random linear extension of the dependency order; `style` biases which ready item goes next
     let style = rng.below(4);
     let n = nodes.len();
@@ -1491,6 +1559,8 @@ pub fn gen_wide(rng: &mut Rng, o: &WideOpts) -> WProgram {
     for i in order {
         if let WItem::Func(f) = &nodes[i].item {
             let dup = items.iter().any(|it| match it {
+                // every method is wrapped in a struct of its own, named after the method: one per name and namespace
+                WItem::Func(g) if g.name == f.name && g.flags.contains('M') && f.flags.contains('M') && g.flags.contains('N') == f.flags.contains('N') => true,
                 WItem::Func(g) => {
                     g.name == f.name
                         && g.shape == f.shape
